@@ -117,7 +117,7 @@ def c13(chk):
         up0 = {}
         for j in range(1, k + 1):
             up0[j] = rng.random() < 0.75
-            cmds.append("node %d key=%d" % (j, 100 + j))
+            cmds.append("node %d key=%d idle=600000" % (j, 100 + j))
         for j in range(1, k + 1):
             if not up0[j]:
                 cmds.append("drop %d" % j)
@@ -151,7 +151,7 @@ def c13(chk):
                         cmds.append("drop %d" % j)
                         avail.append("%d:%d:down" % (at, j))
                     else:
-                        cmds.append("node %d key=%d fport=%d" % (j, 100 + j, j))
+                        cmds.append("node %d key=%d idle=600000 fport=%d" % (j, 100 + j, j))
                         avail.append("%d:%d:up" % (at, j))
                     up[j] = not up[j]
             cmds += ["sleep 510", "trace dial", "peers 0"]
@@ -767,9 +767,14 @@ def c12(chk):
         rng = chk.rng
         maxbidi = rng.choice([4, 8, 16])
         delay = rng.choice([1000, 5000, 20000])
+        # deadlines that are far away must not change anything: a long timeout header on the abandoned
+        # calls, a long outbound default at the caller, a long inbound default at the callee
+        hdr = rng.random() < 0.5
+        out_to = " out_to=3600000" if rng.random() < 0.3 else ""
+        in_to = " in_to=3600000" if rng.random() < 0.3 else ""
         cmds = ["seed=%d delay=%d" % (rng.randrange(1 << 30), delay),
-                "node 0 idle=600000 keepalive=5000 maxbidi=%d" % maxbidi,
-                "node 1 idle=600000 keepalive=5000 maxbidi=%d" % maxbidi, "connect 0 1", "sleep 500"]
+                "node 0 idle=600000 keepalive=5000 maxbidi=%d%s" % (maxbidi, out_to),
+                "node 1 idle=600000 keepalive=5000 maxbidi=%d%s" % (maxbidi, in_to), "connect 0 1", "sleep 500"]
         count = maxbidi * rng.choice([3, 5, 8])
         size = rng.choice([0, 100, 200000])
         hsleep = rng.choice([5, 1000, 60000])
@@ -778,7 +783,7 @@ def c12(chk):
         for j in range(count):
             # abandon instants sweep the whole exchange: before transmission, mid-request, while the handler runs, after completion
             u = rng.choice([0, 1, delay // 2, delay, delay + 1, rtt_us - 1, rtt_us + 10, rtt_us + hsleep * 500, rtt_us + hsleep * 1000 + 5000, 10 * rtt_us + hsleep * 2000])
-            cmds.append("rpc 0 1 id=a%d size=%d sleep-ms=%d abandon-us=%d" % (j, size, hsleep, u))
+            cmds.append("rpc 0 1 id=a%d size=%d sleep-ms=%d abandon-us=%d%s" % (j, size, hsleep, u, " timeout-hdr=" + b"3600000000000".hex() if hdr and rng.random() < 0.7 else ""))
             if rng.random() < 0.15 and live < 3:
                 cmds.append("bg live%d rpc 0 1 id=L%d size=50 sleep-ms=%d" % (live, live, rng.choice([10, 500])))
                 live += 1
